@@ -34,16 +34,20 @@ func normCond(cond ssa.Value) (atomKey, bool) {
 		break
 	}
 	if b, ok := cond.(*ssa.BinOp); ok {
-		x, y := canon(strip(b.X)), canon(strip(b.Y))
+		x, y := canon(stripKeepTypedNil(b.X)), canon(stripKeepTypedNil(b.Y))
 		switch b.Op {
 		case token.EQL, token.NEQ:
 			if b.Op == token.NEQ {
 				pol = !pol
 			}
-			if isNilConst(x) {
+			plainNil := func(v ssa.Value) bool {
+				c, ok := v.(*ssa.Const)
+				return ok && c.Value == nil && isNillable(c.Type())
+			}
+			if plainNil(x) {
 				x, y = y, x
 			}
-			if isNilConst(y) {
+			if plainNil(y) {
 				return atomKey{token.EQL, x, nil}, pol
 			}
 			if lessValue(y, x) {
@@ -766,4 +770,17 @@ func alwaysNonNil(g *ssa.Function, k int, depth int) bool {
 	res = res && n > 0
 	alwaysNonNilCache[key] = res
 	return res
+}
+
+// stripKeepTypedNil strips wrappers, except an interface conversion of a nil
+// pointer constant: comparing an interface with a typed nil is not a nil test.
+func stripKeepTypedNil(v ssa.Value) ssa.Value {
+	if mi, ok := v.(*ssa.MakeInterface); ok {
+		if cst, ok := mi.X.(*ssa.Const); ok && cst.Value == nil {
+			if _, isPtr := cst.Type().Underlying().(*types.Pointer); isPtr {
+				return v
+			}
+		}
+	}
+	return strip(v)
 }
